@@ -23,6 +23,9 @@ type freeSpec struct {
 	Max     int    `json:"max"`
 	Procs   int    `json:"gomaxprocs"`
 	Rounds  int    `json:"rounds"`
+	// Width > 1: the chain is a lattice, every service of a layer depends on every service of the
+	// layer below (few services, exponentially many paths)
+	Width int `json:"width,omitempty"`
 }
 
 func (f *freeSpec) project() (*types.Project, map[string][]string) {
@@ -40,14 +43,21 @@ func (f *freeSpec) project() (*types.Project, map[string][]string) {
 		deps[n] = d
 	}
 	add("base")
-	prev := "base"
+	prev := []string{"base"}
 	for i := 0; i < f.Chain; i++ {
-		n := fmt.Sprintf("chain-%02d", i)
-		add(n, prev)
-		prev = n
+		var layer []string
+		for w := 0; w < max(f.Width, 1); w++ {
+			n := fmt.Sprintf("chain-%02d", i)
+			if w > 0 {
+				n = fmt.Sprintf("chain-%02d-w%d", i, w)
+			}
+			add(n, prev...)
+			layer = append(layer, n)
+		}
+		prev = layer
 	}
 	for i := 0; i < f.Fronts; i++ {
-		add(fmt.Sprintf("front-%02d", i), prev)
+		add(fmt.Sprintf("front-%02d", i), prev...)
 	}
 	add("lonely")
 	add("side", "lonely")
